@@ -25,8 +25,15 @@ META = {
 def run(ctx):
     variants = [{"impl": "concurrent-basic", "cores": 1}, {"impl": "concurrent-compact", "cores": 4, "max": (12, 100)}]
     interesting = lambda c: any(f["kind"] == "area" for f in c["eff"].values())
+    # parallel builders under load (see C36): 150 copies of a source in one compact world, compared token by token with
+    # the in-memory builder's world
+    def tagged_and_valid(c):
+        n = sum(1 for f in c["src"].values() if f["kind"] != "absent" and any(
+            k[0] in "#@" and v not in ("-", "") for k, v in f["tags"].items()))
+        return not c["dropped"] and n >= 3
+    bulk = {"impl": "bulk-compact", "cores": 4, "max": (3, 12), "sections": ["bulk"], "replicas": 150, "only": tagged_and_valid}
     sworld.run_static(
-        ctx, "C35", 1, variants=variants, sections=["concurrent", "problems", "build", "observe"],
+        ctx, "C35", 1, variants=variants + [bulk], sections=["concurrent", "problems", "build", "observe"],
         rule="", max_cases=ctx.pick(40, 300), finish=False, interesting=interesting)
     return sworld.run_static(
         ctx, "C35", 1, variants=variants, sections=["concurrent", "problems", "build", "observe"],
